@@ -64,7 +64,7 @@ def shards(tier):
                 out.append(("phasor Cq(%d,%d)|K%d" % (n, b, len(pk)), ("pha", n, b, ti, pk, ch[0], ch[-1] + 1)))
     for (n, b) in [(2, 2), (2, 3), (3, 3), (3, 4)]:
         topos = sp.topologies(n, b)
-        allk = dyn.kind_tuples(b) if b < 4 else [kt for kt in dyn.kind_tuples(b) if sum(1 for k in kt if k in "CL") == 2 and sum(1 for k in kt if k in "VI") == 1]
+        allk = dyn.kind_tuples(b) if b < 4 else [kt for kt in dyn.kind_tuples(b) if dyn4(kt)]
         for ti in range(len(topos)):
             for ch in sp.chunks(range(len(allk)), 4 if b < 4 else 1):
                 out.append(("dynamics RLC(%d,%d)" % (n, b), ("dyn", n, b, ti, ch[0], ch[-1] + 1, tier)))
@@ -362,6 +362,12 @@ def run_pha(desc, res):
 W3 = [F(1, 3), F(1), F(7)]
 
 
+def dyn4(kt):
+    """4-component dynamics family: two reactive elements with one source, or one reactive element with a voltage AND a current source"""
+    nr = sum(1 for k in kt if k in "CL")
+    return (nr == 2 and sum(1 for k in kt if k in "VI") == 1) or (nr == 1 and "V" in kt and "I" in kt and "R" in kt)
+
+
 def dyn_results(d, transient):
     from CircuitCalculator.Circuit.solution import TransientSolution
     from . import c10
@@ -483,7 +489,7 @@ def judge_dyn(d0, R0, t, res, transient):
 def run_dyn(desc, res):
     _, n, b, ti, k0, k1, tier = desc
     topo = sp.topologies(n, b)[ti]
-    allk = dyn.kind_tuples(b) if b < 4 else [kt for kt in dyn.kind_tuples(b) if sum(1 for k in kt if k in "CL") == 2 and sum(1 for k in kt if k in "VI") == 1]
+    allk = dyn.kind_tuples(b) if b < 4 else [kt for kt in dyn.kind_tuples(b) if dyn4(kt)]
     for kt in allk[k0:k1]:
         res["evals"] += 1
         ok, why = dyn.class_non_degenerate(topo, kt)
